@@ -1,0 +1,49 @@
+//go:build verif
+
+package nebula
+
+import (
+	"context"
+	"log/slog"
+	"net/netip"
+
+	"github.com/gaissmai/bart"
+	"github.com/slackhq/nebula/cert"
+	"github.com/slackhq/nebula/config"
+)
+
+// Thin exported wrappers for the verification harness (engine `calcremote`, configuration reload path).
+// No behaviour.
+
+// VerifCalcRemoteLHFromConfig runs the real NewLightHouseFromConfig on c (which registers the reload
+// callback on c), with a certificate state that has only the overlay networks.
+func VerifCalcRemoteLHFromConfig(ctx context.Context, l *slog.Logger, c *config.C, myNets []netip.Prefix) (*LightHouse, error) {
+	nt := new(bart.Lite)
+	for _, n := range myNets {
+		nt.Insert(n)
+	}
+	cs := &CertState{initiatingVersion: cert.Version2, myVpnNetworks: myNets, myVpnNetworksTable: nt}
+	return NewLightHouseFromConfig(ctx, l, c, cs, nil, nil)
+}
+
+// VerifCalcRemoteTable returns the calculated-remotes table in force, in bart's sorted order; ok=false
+// when the pointer is nil (nothing configured).
+func VerifCalcRemoteTable(lh *LightHouse) (entries []VerifCalcRemoteEntry, ok bool) {
+	t := lh.getCalculatedRemotes()
+	if t == nil {
+		return nil, false
+	}
+	for p, v := range t.AllSorted() {
+		entries = append(entries, VerifCalcRemoteEntry{Cidr: p, Remotes: v})
+	}
+	return entries, true
+}
+
+// VerifCalcRemoteProbe forgets the remote list kept for vpnAddr (so that only what this call stores is read
+// back), calls addCalculatedRemotes and reads back what it stored.
+func VerifCalcRemoteProbe(lh *LightHouse, vpnAddr netip.Addr) (bool, []*V4AddrPort, []*V6AddrPort) {
+	lh.Lock()
+	delete(lh.addrMap, vpnAddr)
+	lh.Unlock()
+	return VerifAddCalculatedRemotes(lh, vpnAddr)
+}
